@@ -42,9 +42,10 @@ var zzZooTypes = []zzTypeSpec{
 		{name: "i", typ: "Int", args: []zzArgSpec{{name: "v", typ: "Int", hasDef: true, def: 7}, {name: "w", typ: "Int"}}},
 		{name: "e", typ: "String", args: []zzArgSpec{{name: "c", typ: "Color"}}},
 		{name: "s", typ: "String", args: []zzArgSpec{{name: "t", typ: "String"}, {name: "u", typ: "String"}}},
-		{name: "io", typ: "String", args: []zzArgSpec{{name: "in", typ: "In"}}},
+		{name: "io", typ: "String", args: []zzArgSpec{{name: "in", typ: "In", hasDef: true, def: map[string]interface{}{"b": "x", "a": 1, "c": 2}}}},
 		{name: "r", typ: "Int", args: []zzArgSpec{{name: "x", typ: "Int", nonNull: true}}},
 		{name: "li", typ: "Int", args: []zzArgSpec{{name: "l", typ: "Int", list: true}}},
+		{name: "lnn", typ: "Int", args: []zzArgSpec{{name: "l", typ: "Int", list: true, nonNull: true}}},
 		{name: "o", typ: "Obj"},
 		{name: "onn", typ: "Obj", nonNull: true},
 		{name: "ol", typ: "Obj", list: true},
@@ -196,6 +197,21 @@ func zzLeafValue(parent, field string, args map[string]interface{}) interface{} 
 			out += "|u=" + u
 		}
 		return out
+	}
+	if parent == "Query" && (field == "li" || field == "lnn") {
+		sum := 0
+		if l, ok := args["l"].([]interface{}); ok {
+			for _, e := range l {
+				if n, ok := e.(int); ok {
+					sum += n
+				}
+			}
+		}
+		return sum
+	}
+	if parent == "Query" && field == "r" {
+		x, _ := args["x"].(int)
+		return x
 	}
 	if field == "m1" || field == "m2" || field == "m3" {
 		return 1
@@ -464,6 +480,76 @@ func (r *zzRef) collect(runtime string, ss *ast.SelectionSet, visited map[string
 	}
 }
 
+// refValue: the internal value of a literal (variables substituted); ok=false when
+// it is an absent / null variable.
+func (r *zzRef) refValue(g ast.Value, typ string) (interface{}, bool) {
+	switch g := g.(type) {
+	case *ast.IntValue:
+		n := 0
+		neg := false
+		for i := 0; i < len(g.Value); i++ {
+			if g.Value[i] == '-' {
+				neg = true
+				continue
+			}
+			n = n*10 + int(g.Value[i]-'0')
+		}
+		if neg {
+			n = -n
+		}
+		return n, true
+	case *ast.StringValue:
+		return g.Value, true
+	case *ast.EnumValue:
+		switch g.Value {
+		case "RED":
+			return 0, true
+		case "GREEN":
+			return 1, true
+		case "BLUE":
+			return "b", true
+		}
+		return nil, false
+	case *ast.Variable:
+		if v, ok := r.vars[g.Name.Value]; ok && v != nil {
+			return v, true
+		}
+		return nil, false
+	case *ast.ListValue:
+		out := []interface{}{}
+		for _, e := range g.Values {
+			v, _ := r.refValue(e, typ)
+			out = append(out, v)
+		}
+		return out, true
+	case *ast.ObjectValue:
+		// input object In {a: Int, b: String!, c: Int = 5, d: Color}
+		out := map[string]interface{}{}
+		for _, fname := range []string{"a", "b", "c", "d"} {
+			set := false
+			for _, of := range g.Fields {
+				if of.Name.Value == fname {
+					ft := "Int"
+					if fname == "b" {
+						ft = "String"
+					} else if fname == "d" {
+						ft = "Color"
+					}
+					if v, ok := r.refValue(of.Value, ft); ok {
+						out[fname] = v
+						set = true
+					}
+				}
+			}
+			if !set && fname == "c" {
+				out["c"] = 5
+			}
+		}
+		return out, true
+	}
+	return nil, false
+}
+
 func (r *zzRef) argValue(spec *zzFieldSpec, f *ast.Field) map[string]interface{} {
 	out := map[string]interface{}{}
 	for _, a := range spec.args {
@@ -474,37 +560,8 @@ func (r *zzRef) argValue(spec *zzFieldSpec, f *ast.Field) map[string]interface{}
 			}
 		}
 		set := false
-		switch g := given.(type) {
-		case *ast.IntValue:
-			n := 0
-			neg := false
-			for i := 0; i < len(g.Value); i++ {
-				if g.Value[i] == '-' {
-					neg = true
-					continue
-				}
-				n = n*10 + int(g.Value[i]-'0')
-			}
-			if neg {
-				n = -n
-			}
-			out[a.name] = n
-			set = true
-		case *ast.StringValue:
-			out[a.name] = g.Value
-			set = true
-		case *ast.EnumValue:
-			switch g.Value {
-			case "RED":
-				out[a.name] = 0
-			case "GREEN":
-				out[a.name] = 1
-			case "BLUE":
-				out[a.name] = "b"
-			}
-			set = true
-		case *ast.Variable:
-			if v, ok := r.vars[g.Name.Value]; ok && v != nil {
+		if given != nil {
+			if v, ok := r.refValue(given, a.typ); ok {
 				out[a.name] = v
 				set = true
 			}
